@@ -361,75 +361,95 @@ Proof.
 Qed.
 End Q.
 
-(* ---- flat scenarios: the certificate the progress argument needs ---- *)
-Record flat_ok (st:static) (rank : nat -> nat) : Prop := {
-  fl_depth : forall i, (i < nsims st)%nat -> depth st i = 1%nat;
+(* ---- uniform scenarios: the certificate the progress argument needs ----
+   All simulators have the same depth D and every delay keeps all D tiers (cutoff D): flat scenarios (D = 1) and
+   scenarios whose simulators all sit in one group (D = 2, ...).  Every delay is either the identity or strictly
+   increasing; identities go up in a rank (no zero-delay cycle). *)
+Record uni_ok (st:static) (D:nat) (rank : nat -> nat) : Prop := {
+  fl_depth : forall i, (i < nsims st)%nat -> depth st i = D;
   fl_anc : forall i a d, (i < nsims st)%nat -> In (a,d) (anc st i) -> (a < nsims st)%nat /\
-     ((forall c, length c = 1%nat -> tlt c (act c d) = true) \/ ((forall c, length c = 1%nat -> act c d = c) /\ (rank a < rank i)%nat));
+     ((forall c, length c = D -> tlt c (act c d) = true) \/ ((forall c, length c = D -> act c d = c) /\ (rank a < rank i)%nat));
   fl_indel : forall j k d, (j < nsims st)%nat -> In (k,d) (indel st j) -> (k < nsims st)%nat /\
-     ((forall c, length c = 1%nat -> tlt c (act c d) = true) \/ ((forall c, length c = 1%nat -> act c d = c) /\ (rank k < rank j)%nat));
+     ((forall c, length c = D -> tlt c (act c d) = true) \/ ((forall c, length c = D -> act c d = c) /\ (rank k < rank j)%nat));
   fl_succ : forall i j d, (i < nsims st)%nat -> In (j,d) (succ_lazy st i) \/ In (j,d) (succ_wait st i) ->
-     (j < nsims st)%nat /\ forall c, length c = 1%nat -> act c d = c;
+     (j < nsims st)%nat /\ forall c, length c = D -> act c d = c;
   fl_init : forall i c, (i < nsims st)%nat -> In c (init_nexts st i) -> thd c < until st }.
 
-(* boolean certificate checker: every delay is a one-tier shift k >= 0; zero shifts go up in rank *)
-Definition flat_shift (d : interval) : option Z :=
-  match itiers d with [k] => if (icut d =? 1)%nat then Some k else None | _ => None end.
-Definition flat_edge_okb (n : nat) (rank : nat -> nat) (src dst : nat) (d : interval) : bool :=
-  (src <? n)%nat && match flat_shift d with Some k => (0 <? k) || ((k =? 0) && (rank src <? rank dst)%nat) | None => false end.
-Definition flat_zero_okb (n : nat) (j : nat) (d : interval) : bool :=
-  (j <? n)%nat && match flat_shift d with Some k => k =? 0 | None => false end.
-Definition check_flat (st : static) (rk : list nat) : bool :=
+(* boolean certificate checker *)
+Definition uni_shape (D:nat) (d : interval) : bool := (icut d =? D)%nat && (length (itiers d) =? D)%nat && nonneg d.
+Definition uni_edge_okb (n D : nat) (rank : nat -> nat) (src dst : nat) (d : interval) : bool :=
+  (src <? n)%nat && uni_shape D d && (negb (izero d) || (rank src <? rank dst)%nat).
+Definition uni_zero_okb (n D : nat) (j : nat) (d : interval) : bool :=
+  (j <? n)%nat && uni_shape D d && izero d.
+Definition check_uniform (st : static) (D : nat) (rk : list nat) : bool :=
   let rank := fun i => nth i rk 0%nat in
   forallb (fun i =>
-    (depth st i =? 1)%nat &&
-    forallb (fun ad : nat * interval => flat_edge_okb (nsims st) rank (fst ad) i (snd ad)) (anc st i) &&
-    forallb (fun kd : nat * interval => flat_edge_okb (nsims st) rank (fst kd) i (snd kd)) (indel st i) &&
-    forallb (fun jd : nat * interval => flat_zero_okb (nsims st) (fst jd) (snd jd)) (succ_lazy st i ++ succ_wait st i))
+    (depth st i =? D)%nat &&
+    forallb (fun ad : nat * interval => uni_edge_okb (nsims st) D rank (fst ad) i (snd ad)) (anc st i) &&
+    forallb (fun kd : nat * interval => uni_edge_okb (nsims st) D rank (fst kd) i (snd kd)) (indel st i) &&
+    forallb (fun jd : nat * interval => uni_zero_okb (nsims st) D (fst jd) (snd jd)) (succ_lazy st i ++ succ_wait st i))
     (seq 0 (nsims st)) &&
   forallb (fun i => forallb (fun c => thd c <? until st) (init_nexts st i)) (seq 0 (nsims st)).
 
-Lemma flat_shift_act d k c : flat_shift d = Some k -> length c = 1%nat -> act c d = [thd c + k].
+Lemma uni_shape_act D d c : uni_shape D d = true -> length c = D -> act c d = zadd c (itiers d).
 Proof.
-  unfold flat_shift. destruct (itiers d) as [|k0 [|? ?]] eqn:E; try discriminate.
-  destruct (icut d =? 1)%nat eqn:Ec; [|discriminate]. intros H; injection H as ->. apply Nat.eqb_eq in Ec.
-  destruct c as [|x [|? ?]]; try discriminate. intros _. unfold act. rewrite E, Ec. reflexivity.
+  unfold uni_shape. intros H Hc. apply andb_true_iff in H as [H _]. apply andb_true_iff in H as [H1 H2].
+  apply Nat.eqb_eq in H1. apply Nat.eqb_eq in H2. unfold act. rewrite H1.
+  rewrite <- H2 at 1. rewrite firstn_all. rewrite <- H2. rewrite skipn_all. apply app_nil_r.
 Qed.
 
-Lemma flat_edge_sound n rank src dst d : flat_edge_okb n rank src dst d = true ->
-  (src < n)%nat /\ ((forall c, length c = 1%nat -> tlt c (act c d) = true) \/
-                    ((forall c, length c = 1%nat -> act c d = c) /\ (rank src < rank dst)%nat)).
+Lemma zadd_zero c k : length k = length c -> forallb (fun x => x =? 0) k = true -> zadd c k = c.
 Proof.
-  unfold flat_edge_okb. intros H. apply andb_true_iff in H as [H1 H2]. apply Nat.ltb_lt in H1. split; [exact H1|].
-  destruct (flat_shift d) as [k|] eqn:E; [|discriminate].
-  apply orb_true_iff in H2 as [H2|H2].
-  - left. intros c Hc. rewrite (flat_shift_act _ _ _ E Hc). apply Z.ltb_lt in H2.
-    destruct c as [|x [|? ?]]; try discriminate. simpl. assert (x <? x + k = true) by (apply Z.ltb_lt; lia). rewrite H. reflexivity.
-  - right. apply andb_true_iff in H2 as [H2 H3]. apply Z.eqb_eq in H2. apply Nat.ltb_lt in H3. split; [|exact H3].
-    intros c Hc. rewrite (flat_shift_act _ _ _ E Hc). subst k. destruct c as [|x [|? ?]]; try discriminate. simpl. rewrite Z.add_0_r. reflexivity.
+  revert k. induction c as [|x c IH]; intros [|y k] Hl Hz; simpl in *; try discriminate; auto.
+  apply andb_true_iff in Hz as [Hy Hz]. apply Z.eqb_eq in Hy. subst y. rewrite Z.add_0_r. f_equal. apply IH; auto.
+Qed.
+Lemma zadd_pos c k : length k = length c -> forallb (fun x => 0 <=? x) k = true -> forallb (fun x => x =? 0) k = false ->
+  tlt c (zadd c k) = true.
+Proof.
+  revert k. induction c as [|x c IH]; intros [|y k] Hl Hn Hz; simpl in *; try discriminate.
+  apply andb_true_iff in Hn as [Hy Hn]. apply Z.leb_le in Hy.
+  destruct (y =? 0) eqn:E.
+  - apply Z.eqb_eq in E. subst y. simpl in Hz. rewrite Z.add_0_r, Z.ltb_irrefl. apply IH; auto.
+  - apply Z.eqb_neq in E. assert (x <? x + y = true) by (apply Z.ltb_lt; lia). rewrite H. reflexivity.
 Qed.
 
-Lemma flat_zero_sound n j d : flat_zero_okb n j d = true -> (j < n)%nat /\ forall c, length c = 1%nat -> act c d = c.
+Lemma uni_edge_sound n D rank src dst d : uni_edge_okb n D rank src dst d = true ->
+  (src < n)%nat /\ ((forall c, length c = D -> tlt c (act c d) = true) \/
+                    ((forall c, length c = D -> act c d = c) /\ (rank src < rank dst)%nat)).
 Proof.
-  unfold flat_zero_okb. intros H. apply andb_true_iff in H as [H1 H2]. apply Nat.ltb_lt in H1. split; [exact H1|].
-  destruct (flat_shift d) as [k|] eqn:E; [|discriminate]. apply Z.eqb_eq in H2. subst k.
-  intros c Hc. rewrite (flat_shift_act _ _ _ E Hc). destruct c as [|x [|? ?]]; try discriminate. simpl. rewrite Z.add_0_r. reflexivity.
+  unfold uni_edge_okb. intros H. apply andb_true_iff in H as [H H3]. apply andb_true_iff in H as [H1 H2].
+  apply Nat.ltb_lt in H1. split; [exact H1|].
+  pose proof H2 as Hs. unfold uni_shape in Hs. apply andb_true_iff in Hs as [Hs Hnn]. apply andb_true_iff in Hs as [_ Hlen].
+  apply Nat.eqb_eq in Hlen.
+  destruct (izero d) eqn:Ez.
+  - right. simpl in H3. apply Nat.ltb_lt in H3. split; [|exact H3].
+    intros c Hc. rewrite (uni_shape_act _ _ _ H2 Hc). apply zadd_zero; [congruence|exact Ez].
+  - left. intros c Hc. rewrite (uni_shape_act _ _ _ H2 Hc). apply zadd_pos; [congruence|exact Hnn|exact Ez].
 Qed.
 
-Theorem check_flat_sound st rk : check_flat st rk = true -> flat_ok st (fun i => nth i rk 0%nat).
+Lemma uni_zero_sound n D j d : uni_zero_okb n D j d = true -> (j < n)%nat /\ forall c, length c = D -> act c d = c.
 Proof.
-  intros H. unfold check_flat in H. apply andb_true_iff in H as [H HI].
+  unfold uni_zero_okb. intros H. apply andb_true_iff in H as [H H3]. apply andb_true_iff in H as [H1 H2].
+  apply Nat.ltb_lt in H1. split; [exact H1|].
+  pose proof H2 as Hs. unfold uni_shape in Hs. apply andb_true_iff in Hs as [Hs _]. apply andb_true_iff in Hs as [_ Hlen].
+  apply Nat.eqb_eq in Hlen.
+  intros c Hc. rewrite (uni_shape_act _ _ _ H2 Hc). apply zadd_zero; [congruence|exact H3].
+Qed.
+
+Theorem check_uniform_sound st D rk : check_uniform st D rk = true -> uni_ok st D (fun i => nth i rk 0%nat).
+Proof.
+  intros H. unfold check_uniform in H. apply andb_true_iff in H as [H HI].
   rewrite forallb_forall in H.
   assert (P : forall i, (i < nsims st)%nat -> _) by (intros i Hi; apply (H i); apply in_seq; lia).
   split.
   - intros i Hi. specialize (P i Hi). repeat (apply andb_true_iff in P as [P ?]). apply Nat.eqb_eq in P. exact P.
   - intros i a d Hi Hin. specialize (P i Hi). repeat (apply andb_true_iff in P as [P ?]).
-    match goal with X : forallb _ (anc st i) = true |- _ => rewrite forallb_forall in X; specialize (X _ Hin); simpl in X; apply flat_edge_sound in X; exact X end.
+    match goal with X : forallb _ (anc st i) = true |- _ => rewrite forallb_forall in X; specialize (X _ Hin); simpl in X; apply uni_edge_sound in X; exact X end.
   - intros j k d Hj Hin. specialize (P j Hj). repeat (apply andb_true_iff in P as [P ?]).
-    match goal with X : forallb _ (indel st j) = true |- _ => rewrite forallb_forall in X; specialize (X _ Hin); simpl in X; apply flat_edge_sound in X; exact X end.
+    match goal with X : forallb _ (indel st j) = true |- _ => rewrite forallb_forall in X; specialize (X _ Hin); simpl in X; apply uni_edge_sound in X; exact X end.
   - intros i j d Hi Hin. specialize (P i Hi). repeat (apply andb_true_iff in P as [P ?]).
     match goal with X : forallb _ (succ_lazy st i ++ succ_wait st i) = true |- _ =>
-      rewrite forallb_forall in X; specialize (X (j,d)); simpl in X; apply flat_zero_sound; apply X; apply in_or_app; exact Hin end.
+      rewrite forallb_forall in X; specialize (X (j,d)); simpl in X; apply (uni_zero_sound (nsims st) D); apply X; apply in_or_app; exact Hin end.
   - intros i c Hi Hc.
     rewrite forallb_forall in HI. assert (Hs : In i (seq 0 (nsims st))) by (apply in_seq; lia).
     specialize (HI i Hs). rewrite forallb_forall in HI. apply Z.ltb_lt. apply HI; exact Hc.
@@ -439,8 +459,9 @@ Qed.
 Section Run.
 Variable st : static.
 Hypothesis OK : static_ok st.
+Variable D : nat.
 Variable rank : nat -> nat.
-Hypothesis FL : flat_ok st rank.
+Hypothesis FL : uni_ok st D rank.
 
 Definition Live (s:state) : Prop := Good st s /\ Aux st s /\ Live3 st s.
 
@@ -478,16 +499,20 @@ Proof.
   eapply live_run; [apply live_init|exact H|]. apply last_in. discriminate.
 Qed.
 
-Definition start_or_begin (e:event) : Prop :=
-  match e with EvStart i => (i < nsims st)%nat | EvBegin i _ _ => (i < nsims st)%nat | _ => False end.
+(* the events with which the scheduler itself moves on: a simulator task starts, a simulator begins a step, or the
+   same-time loop guard stops the run with a SimulationError *)
+Definition scheduler_move (e:event) : Prop :=
+  match e with EvStart i => (i < nsims st)%nat | EvBegin i _ _ => (i < nsims st)%nat | EvLoopFail i => (i < nsims st)%nat | _ => False end.
 
-(* Deadlock-freedom of flat scenarios: in every reachable state in which nothing is in flight (every simulator is
-   not started, asleep, waiting or done) and some simulator of the scenario is not done, the scheduler accepts a
-   START or a BEGIN event of a simulator of the scenario: the run is not stuck. *)
-Theorem flat_progress s : reached st s -> Quiet s -> (exists i, (i < nsims st)%nat /\ pc (s i) <> Done) ->
-  exists e s', start_or_begin e /\ apply st s e = Ok s'.
+(* Deadlock-freedom of uniform scenarios: in every reachable state in which nothing is in flight (every simulator is
+   not started, asleep, waiting or done) and some simulator of the scenario is not done, the scheduler can move: a
+   START, a BEGIN or the loop guard's abort is accepted - the run is not stuck. *)
+Theorem uniform_progress s : reached st s -> Quiet s -> (exists i, (i < nsims st)%nat /\ pc (s i) <> Done) ->
+  exists e s', scheduler_move e /\ apply st s e = Ok s'.
 Proof.
   intros R Q Hnd. destruct (reached_live s R) as (G & A & [HE HW HD]).
+  assert (HD1 : (1 <= D)%nat).
+  { destruct Hnd as (i & Hi & _). rewrite <- (fl_depth _ _ _ FL i Hi). apply (ok_depth st OK). }
   destruct (existsb (fun i => match pc (s i) with NotStarted => true | _ => false end) (seq 0 (nsims st))) eqn:Ex.
   - (* some simulator has not been started *)
     apply existsb_exists in Ex as (i & Hi & Hp). apply in_seq in Hi.
@@ -503,36 +528,60 @@ Proof.
       { apply existsb_exists. exists i. split; [apply in_seq; lia|rewrite Hn; reflexivity]. }
       congruence. }
     destruct G as ([I ID] & WI & WL).
-    destruct (progress_flat st rank (fl_depth _ _ FL) (fl_anc _ _ FL) (fl_indel _ _ FL) (fl_succ _ _ FL) s I WI A
+    destruct (progress_flat st rank D HD1 (fl_depth _ _ _ FL) (fl_anc _ _ _ FL) (fl_indel _ _ _ FL) (fl_succ _ _ _ FL) s I WI A
                 (fun i Hi => HE Q i Hi (proj2 (HQ i Hi))) HW WL HQ HD Hnd) as (i & Hi & Hen).
     pose proof Hen as Hen'. unfold begin_enabled in Hen'. destruct (pc (s i)) as [|aw|t| | |] eqn:Epc; try discriminate.
     pose proof (WI i t Epc) as Hin.
     destruct (tmin (nexts (s i))) as [t'|] eqn:Et; [|apply tmin_none in Et; rewrite Et in Hin; destruct Hin].
     assert (Htt : teq t' t' = true) by (apply teq_eq; reflexivity).
-    assert (Hlen : length t' = 1%nat).
-    { destruct I as [HS _]. rewrite <- (fl_depth _ _ FL i Hi). apply (HS i). unfold cands. apply in_or_app. right.
-      apply tmin_spec in Et as [Et _]. exact Et. }
-    assert (Hle : loop_exceeded st t' = false) by (destruct t' as [|x [|? ?]]; try discriminate; reflexivity).
     set (s1 := upd s i (mkSim InStep (prog (s i)) (removeT t' (nexts (s i))) (Some t') (last (s i)) (newer (s i)))).
     destruct (teq t' (prog (s i))) eqn:Ep.
-    + exists (EvBegin i t' (max_advance st s1 i)), s1. split; [simpl; exact Hi|].
-      simpl. rewrite Hen. simpl. rewrite Et, Htt. simpl. rewrite Ep. simpl. rewrite Hle.
-      fold s1. rewrite Z.eqb_refl. reflexivity.
+    + destruct (loop_exceeded st t') eqn:Hle.
+      * exists (EvLoopFail i), s. split; [simpl; exact Hi|].
+        simpl. rewrite Hen. simpl. rewrite Et, Hle, Ep. reflexivity.
+      * exists (EvBegin i t' (max_advance st s1 i)), s1. split; [simpl; exact Hi|].
+        simpl. rewrite Hen. simpl. rewrite Et, Htt. simpl. rewrite Ep. simpl. rewrite Hle.
+        fold s1. rewrite Z.eqb_refl. reflexivity.
     + exfalso. apply (C05_no_past st OK s i t' 0 R). simpl. rewrite Hen. simpl. rewrite Et, Htt. simpl. rewrite Ep. reflexivity.
 Qed.
 End Run.
 
 (* ---- a rank certificate computed from the tables: longest zero-delay path into every simulator ---- *)
 Definition zero_preds (st:static) (i:nat) : list nat :=
-  map fst (filter (fun ad : nat * interval => match flat_shift (snd ad) with Some k => k =? 0 | None => false end) (anc st i ++ indel st i)).
+  map fst (filter (fun ad : nat * interval => izero (snd ad)) (anc st i ++ indel st i)).
 Definition rank_step (st:static) (rk : list nat) : list nat :=
   map (fun i => fold_left Nat.max (map (fun a => S (nth a rk 0%nat)) (zero_preds st i)) 0%nat) (seq 0 (nsims st)).
 Definition compute_rank (st:static) : list nat := Nat.iter (nsims st) (rank_step st) (repeat 0%nat (nsims st)).
-Definition flat_certified (st:static) : bool := check_flat st (compute_rank st).
+Definition uniform_certified (st:static) : bool := check_uniform st (depth st 0) (compute_rank st).
+(* flat: no groups at all *)
+Definition flat_certified (st:static) : bool := (depth st 0 =? 1)%nat && uniform_certified st.
 
+Theorem certified_uniform_progress st : static_ok st -> uniform_certified st = true ->
+  forall s, reached st s -> Quiet s -> (exists i, (i < nsims st)%nat /\ pc (s i) <> Done) ->
+  exists e s', scheduler_move st e /\ apply st s e = Ok s'.
+Proof.
+  intros OK H. apply (uniform_progress st OK _ _ (check_uniform_sound st _ _ H)).
+Qed.
+
+(* in a flat scenario the loop guard never fires: the move is a START or a BEGIN *)
 Theorem certified_flat_progress st : static_ok st -> flat_certified st = true ->
   forall s, reached st s -> Quiet s -> (exists i, (i < nsims st)%nat /\ pc (s i) <> Done) ->
-  exists e s', start_or_begin st e /\ apply st s e = Ok s'.
+  exists e s', match e with EvStart i => (i < nsims st)%nat | EvBegin i _ _ => (i < nsims st)%nat | _ => False end /\ apply st s e = Ok s'.
 Proof.
-  intros OK H. apply (flat_progress st OK _ (check_flat_sound st _ H)).
+  intros OK H s R Q Hnd. apply andb_true_iff in H as [H1 H2]. apply Nat.eqb_eq in H1.
+  destruct (certified_uniform_progress st OK H2 s R Q Hnd) as (e & s' & Hm & Ha).
+  exists e, s'. split; [|exact Ha].
+  destruct e as [i | i t m | i nxt | i ot ports | | i | i]; simpl in Hm; try contradiction; auto.
+  (* a loop-guard abort needs a time with more than one tier *)
+  exfalso. simpl in Ha.
+  destruct (negb (begin_enabled st s i)) eqn:Eb; simpl in Ha; [discriminate|].
+  destruct (tmin (nexts (s i))) as [t'|] eqn:Et; [|discriminate].
+  destruct (loop_exceeded st t') eqn:El; simpl in Ha; [|discriminate].
+  pose proof (reached_good st OK s R) as ([[HS _] _] & _ & _).
+  assert (Hlen : length t' = 1%nat).
+  { apply tmin_spec in Et as [Et _]. destruct (HS i) as [_ Hc]. rewrite (Hc t').
+    - pose proof (fl_depth _ _ _ (check_uniform_sound st _ _ H2)) as Fd. rewrite (Fd i Hm). rewrite <- H1.
+      destruct (Nat.eq_dec (nsims st) 0) as [Hz|Hz]; [lia|]. symmetry. apply Fd. lia.
+    - unfold cands. apply in_or_app. right. exact Et. }
+  destruct t' as [|x [|? ?]]; discriminate.
 Qed.
